@@ -628,6 +628,88 @@ def interface_roundtrip(ctx, K, cfg, out, abi, ch, addr, calls, fail, stats):
                  func=fsig(e), direct=[d.ok, d.out.hex()], via_caller=[c.ok, c.out.hex()], caller=src)
 
 
+# ---------------------------------------------------------------- events / errors of imported modules
+def drive_modules(ctx, M, cfg, rnd, stats):
+    """ABI truthfulness for logs and custom errors, matched by topic0 / selector (never by name): every log emitted and every
+    custom error raised by the deployed code is described by an ABI entry, and the ABI lists exactly the locally declared
+    and the reachable imported events / errors."""
+    from vlib.evm import Chain, log_tuple
+    from eth_abi import encode
+    with warnings.catch_warnings():
+        warnings.simplefilter("ignore")
+        out = compile_src(M["src"], cfg, formats=("abi", "method_identifiers", "bytecode"), contract_path="gen.vy",
+                          input_bundle=bundle_for({}, extra=M["files"]))
+    abi = out["abi"]
+    info = {"config": cfg.name, "src": M["src"], "modules": M["files"]}
+
+    def fail(name, **d):
+        raise Fail(name, dict(info, **d))
+
+    by_topic, by_sel = {}, {}
+    listed = {"event": set(), "error": set()}
+    for e in abi:
+        if e["type"] == "event":
+            by_topic[keccak(fsig(e).encode())] = e
+            listed["event"].add((fsig(e), tuple(i["name"] for i in e["inputs"]), tuple(bool(i["indexed"]) for i in e["inputs"])))
+        elif e["type"] == "error":
+            by_sel[keccak(fsig(e).encode())[:4]] = e
+            listed["error"].add((fsig(e), tuple(i["name"] for i in e["inputs"]), ()))
+    ch = Chain(cfg.evm)
+    addr = ch.deploy(bytes.fromhex(out["bytecode"][2:]))
+    if addr is None:
+        fail("deployment failed")
+    stats["deploys"] += 1
+    for c in M["calls"]:
+        d = c["decl"]
+        types = [G.abi_canon(t) for _, t, _ in d["fields"]]
+        vals = [G.value(t, rnd, min_len=1) for _, t, _ in d["fields"]]
+        data = keccak(c["fsig"].encode())[:4] + encode(types, vals)
+        r = ch.call(addr, data)
+        stats["calls"] += 1
+        if d["kind"] == "event":
+            logs = [log_tuple(l) for l in r.logs] if r.ok else []
+            if len(logs) != 1:
+                fail("call which emits one event did not produce exactly one log", call=c["fsig"], ok=r.ok, nlogs=len(logs))
+            _, topics, ldata = logs[0]
+            ev = by_topic.get(topics[0])
+            if ev is None:
+                fail("emitted log has no ABI event entry (matched by topic0)", call=c["fsig"], emitted=c["sig"], topic0=topics[0].hex(),
+                     abi_events=sorted(x[0] for x in listed["event"]))
+            idx = [(i, v) for i, v in zip(ev["inputs"], vals) if i["indexed"]]
+            nidx = [i for i in ev["inputs"] if not i["indexed"]]
+            if len(topics) != 1 + len(idx):
+                fail("log topic count does not match the event ABI entry", event=fsig(ev), topics=[t.hex() for t in topics])
+            for tp, (i, v) in zip(topics[1:], idx):
+                if tp != encode_args([i], [v]):
+                    fail("indexed topic differs from the ABI encoding of the argument", event=fsig(ev), arg=i["name"])
+            try:
+                lv = decode_strict(nidx, ldata)
+            except Exception as ex:
+                fail("log data not decodable per the event ABI entry", event=fsig(ev), data=ldata.hex(), error=str(ex))
+            if lv != tuple(norm(v) for i, v in zip(ev["inputs"], vals) if not i["indexed"]):
+                fail("log data decodes to the wrong values", event=fsig(ev), got=str(lv))
+            stats["module_logs_decoded"] += 1
+        else:
+            if r.ok or len(r.out) < 4:
+                fail("call which raises a custom error did not revert with data", call=c["fsig"], ok=r.ok, out=r.out.hex())
+            er = by_sel.get(r.out[:4])
+            if er is None:
+                fail("raised custom error has no ABI error entry (matched by selector)", call=c["fsig"], raised=c["sig"],
+                     selector=r.out[:4].hex(), abi_errors=sorted(x[0] for x in listed["error"]))
+            try:
+                dv = decode_strict(er["inputs"], r.out[4:])
+            except Exception as ex:
+                fail("custom error data not decodable per its ABI entry", error_entry=fsig(er), data=r.out.hex(), error=str(ex))
+            if dv != tuple(norm(v) for v in vals):
+                fail("custom error data decodes to the wrong values", error_entry=fsig(er), got=str(dv))
+            stats["module_errors_decoded"] += 1
+    for kind in ("event", "error"):
+        if listed[kind] != M["expected"][kind]:
+            fail(f"ABI {kind} entries differ from the declared + reachable {kind}s",
+                 missing=sorted(map(str, M["expected"][kind] - listed[kind])), unexpected=sorted(map(str, listed[kind] - M["expected"][kind])))
+    stats["module_programs"] += 1
+
+
 def split_top(s):
     out, depth, cur = [], 0, ""
     for ch in s:
@@ -674,6 +756,22 @@ def run(ctx):
         for cfg in use:
             try:
                 drive(ctx, K, cfg, drv, stats)
+                stats["contract_configs"] += 1
+            except Fail as f:
+                found = True
+                if f.name not in reported and len(reported) < 3:
+                    reported.add(f.name)
+                    ctx.violation("failing-input", f.name, f.detail, key="C19:" + f.name[:60])
+                break
+        if len(reported) >= 3:
+            break
+    mrnd = ctx.rng("module-events")
+    for i in range(8 if ctx.tier == "quick" else 40):
+        M = G.gen_module_events(mrnd)
+        use = cfgs if ctx.tier == "thorough" else [cfgs[i % 2], cfgs[2 + i % 3]]
+        for cfg in use:
+            try:
+                drive_modules(ctx, M, cfg, drv, stats)
                 stats["contract_configs"] += 1
             except Fail as f:
                 found = True
